@@ -31,21 +31,36 @@ theorem ratio_of_atPrev (P : Params K) (items : List (Item K)) (lineW : K) (tol 
   have hz : n.d.z = (afterSums P items prev).2.2 := congrArg (·.2.2) hn.1
   simp only [mlCx, hW, hY, hZ, hw, hy, hz]
 
-/-- a node whose line to the current break is not too long survives `mainLoop` -/
+/-- a node whose least line length to the current break does not exceed the line width survives `mainLoop` -/
 theorem keep_step (P : Params K) (items : List (Item K)) (lineW : K) (tol : Option K) (b : Nat)
     (it : Item K) (rest : List (Item K)) (lb : LB K) (n : Node K) (prev : Option Nat)
+    (hinf : 0 < P.infinity) (hlw : 0 < lineW)
     (hs : (lb.W, lb.Y, lb.Z) = pre items b) (hn : n ∈ lb.act) (hat : AtPrev P items n prev)
     (hnf : isForced P it = false)
-    (hnt : ¬ TooLong (adjRatio P lineW it (pre items b).1 (pre items b).2.1 (pre items b).2.2
-      (afterSums P items prev).1 (afterSums P items prev).2.1 (afterSums P items prev).2.2)) :
+    (hY : (afterSums P items prev).2.1 ≤ (pre items b).2.1) (hZ : (afterSums P items prev).2.2 ≤ (pre items b).2.2)
+    (hnt : ¬ lineW < ((pre items b).1 - (afterSums P items prev).1) -
+      ((pre items b).2.2 - (afterSums P items prev).2.2)) :
     n ∈ (mainLoop P items lineW tol b it rest lb).act := by
   rw [mainLoop_act]
   apply mainGo_keeps _ _ _ n _ lb.act _ _ hn
-  rw [ratio_of_atPrev P items lineW tol b it lb n prev hs hat]
-  cases hd : deactivates (mlCx P items lineW tol b it lb) (adjRatio P lineW it (pre items b).1 (pre items b).2.1
-      (pre items b).2.2 (afterSums P items prev).1 (afterSums P items prev).2.1 (afterSums P items prev).2.2) with
+  have hW : lb.W = (pre items b).1 := congrArg (·.1) hs
+  have hY' : lb.Y = (pre items b).2.1 := congrArg (·.2.1) hs
+  have hZ' : lb.Z = (pre items b).2.2 := congrArg (·.2.2) hs
+  have hw : n.d.w = (afterSums P items prev).1 := congrArg (·.1) hat.1
+  have hy : n.d.y = (afterSums P items prev).2.1 := congrArg (·.2.1) hat.1
+  have hz : n.d.z = (afterSums P items prev).2.2 := congrArg (·.2.2) hat.1
+  cases hd : deactivates (mlCx P items lineW tol b it lb) n
+      (adjRatio (mlCx P items lineW tol b it lb).P (mlCx P items lineW tol b it lb).lineW
+        (mlCx P items lineW tol b it lb).it (mlCx P items lineW tol b it lb).W (mlCx P items lineW tol b it lb).Y
+        (mlCx P items lineW tol b it lb).Z n.d.w n.d.y n.d.z) with
   | false => rfl
-  | true => exact absurd ((tooLong_iff_deact _ _ hnf).mp hd) hnt
+  | true =>
+    exfalso
+    have := deact_imp (mlCx P items lineW tol b it lb) n hnf (by simp only [mlCx]; rw [hy, hY']; exact hY)
+      (by simp only [mlCx]; rw [hz, hZ']; exact hZ) hinf hlw hd
+    simp only [mlCx] at this
+    rw [hW, hZ', hw, hz] at this
+    exact hnt this
 
 /-- a feasible line from a dominating node yields a dominating node at the new break -/
 theorem dom_step (P : Params K) (items : List (Item K)) (lineW : K) (tol : Option K) (b : Nat)
@@ -93,8 +108,8 @@ theorem dom_le (P : Params K) (n : Node K) (fit : Nat) (acc : K) (hDF : 0 ≤ P.
   · exact h
   · linarith
 
-theorem drastic_id (tol : Option K) (b : Nat) (lb1 : LB K) (n : Node K) (h : n ∈ lb1.act) :
-    drastic tol b lb1 = some lb1 := by
+theorem drastic_id (P : Params K) (tol : Option K) (b : Nat) (it : Item K) (rest : List (Item K)) (lb1 : LB K)
+    (n : Node K) (h : n ∈ lb1.act) : drastic P tol b it rest lb1 = some lb1 := by
   unfold drastic
   cases hl : lb1.act with
   | nil => rw [hl] at h; cases h
@@ -135,10 +150,19 @@ theorem passLoop_opt (P : Params K) (items : List (Item K)) (lineW : K) (hwf : W
     have hit : items[b]? = some it := drop_getElem? hdrop
     have hblt : b < items.length := drop_lt_length hdrop
     simp only [passLoop]
-    cases h1 : itemStep P items lineW tol b (prevOf items b) it rest lb with
+    obtain ⟨hIc, _⟩ := clear_inv P items lineW tol b lb hI
+    have hcl : (clearStale P (prevOf items b) lb).act = lb.act ∧ (clearStale P (prevOf items b) lb).ovf = lb.ovf := by
+      unfold clearStale
+      split
+      · split <;> exact ⟨rfl, rfl⟩
+      · exact ⟨rfl, rfl⟩
+    have hn0 : n ∈ (clearStale P (prevOf items b) lb).act := by rw [hcl.1]; exact hn
+    obtain ⟨lb0, hlb0⟩ : ∃ x, clearStale P (prevOf items b) lb = x := ⟨_, rfl⟩
+    rw [hlb0] at hIc hcl hn0 ⊢
+    cases h1 : itemStep P items lineW tol b (prevOf items b) it rest lb0 with
     | none =>
       exfalso
-      obtain ⟨hg, hr⟩ := itemStep_none P items lineW tol b _ it rest lb h1
+      obtain ⟨hg, hr⟩ := itemStep_none P items lineW tol b _ it rest lb0 h1
       have := hwf.np b it hit hg
       have h2 := drop_succ_of_drop hdrop
       rw [hr] at h2
@@ -146,7 +170,7 @@ theorem passLoop_opt (P : Params K) (items : List (Item K)) (lineW : K) (hwf : W
       omega
     | some lb1 =>
       simp only
-      obtain ⟨lbm, hm, hs1, ha1, hi1, ht1, ho1⟩ := itemStep_cases P items lineW tol b it rest lb lb1 hdrop h1
+      obtain ⟨lbm, hm, hs1, ha1, hi1, ht1, ho1⟩ := itemStep_cases P items lineW tol b it rest lb0 lb1 hdrop h1
       -- the state of the sequence after this item, and a dominating node in lb1.act
       have key : ∃ prev' fit' acc' seq', (∀ x, x ∈ seq' → b + 1 ≤ x) ∧ seq'.Pairwise (· < ·) ∧
           NoSkip P items prev' seq' ∧ (∀ a, prev' = some a → a < b + 1 ∧ legalAt P items a = true) ∧
@@ -168,12 +192,12 @@ theorem passLoop_opt (P : Params K) (items : List (Item K)) (lineW : K) (hwf : W
               · rename_i r hr
                 split at hcost
                 · rename_i hf
-                  have hlbm : lbm = mainLoop P items lineW tol b it rest lb := by
+                  have hlbm : lbm = mainLoop P items lineW tol b it rest lb0 := by
                     rcases hm with ⟨h0, _⟩ | ⟨_, h⟩
                     · rw [hleg] at h0; cases h0
                     · exact h
-                  obtain ⟨n', hn', hat', hdom'⟩ := dom_step P items lineW tol b it rest lb n prev fit acc r hwf.df
-                    hdrop hI.sums hn hat hdom hr hf
+                  obtain ⟨n', hn', hat', hdom'⟩ := dom_step P items lineW tol b it rest lb0 n prev fit acc r hwf.df
+                    hdrop hIc.sums hn0 hat hdom hr hf
                   have hp := List.pairwise_cons.mp hpw
                   refine ⟨some b, fitClass r, _, seq', ?_, hp.2, hns.2, ?_, ?_, ?_, hcost, n', ?_, hat', hdom'⟩
                   · intro y hy; exact hp.1 y hy
@@ -198,7 +222,7 @@ theorem passLoop_opt (P : Params K) (items : List (Item K)) (lineW : K) (hwf : W
             have hsurv : n ∈ lb1.act := by
               rw [ha1]
               rcases hm with ⟨_, h⟩ | ⟨hleg, h⟩
-              · rw [h]; exact hn
+              · rw [h]; exact hn0
               · rw [h]
                 -- not forced: no forced break is skipped
                 have hnf : isForced P it = false := by
@@ -219,24 +243,20 @@ theorem passLoop_opt (P : Params K) (items : List (Item K)) (lineW : K) (hwf : W
                     · rename_i r hr
                       split at hcx
                       · rename_i hf
-                        apply keep_step P items lineW tol b it rest lb n prev hI.sums hn hat hnf
-                        intro htl
                         have hpb : ∀ a, prev = some a → a < b ∧ legalAt P items a = true := hprev
                         have hpx : ∀ a, prev = some a → a < x ∧ legalAt P items a = true :=
                           fun a ha => ⟨Nat.lt_trans (hprev a ha).1 hxb, (hprev a ha).2⟩
                         obtain ⟨hyb, hzb⟩ := afterSums_le P items lineW hwf prev b hpb hleg
                         obtain ⟨hyx, hzx⟩ := afterSums_le P items lineW hwf prev x hpx hlegx
-                        have hpen : ∀ (i : Item K), i ∈ items → i.ty = Ty.penalty → i.width = 0 :=
-                          fun i hi => (hwf.itemsOK i hi).2.2
-                        have h1 := tooLong_imp P lineW it _ _ _ _ _ _ (hpen it (List.mem_of_getElem? hit)) hyb hzb
-                          hwf.inf hwf.lw htl
+                        apply keep_step P items lineW tol b it rest lb0 n prev hwf.inf hwf.lw hIc.sums hn0 hat hnf hyb hzb
+                        intro h1
                         obtain ⟨_, _, _, hmono⟩ := pre_mono items hwf.itemsOK b (x - b)
                         have e : b + (x - b) = x := by omega
                         rw [e] at hmono
                         have h2 : lineW < ((pre items x).1 - (afterSums P items prev).1) -
                             ((pre items x).2.2 - (afterSums P items prev).2.2) := by linarith
                         have h3 := tooLong_of P lineW itx _ (pre items x).2.1 _ _ (afterSums P items prev).2.1 _
-                          (hpen itx (List.mem_of_getElem? hix)) hzx hwf.inf h2
+                          (hwf.itemsOK itx (List.mem_of_getElem? hix)).1 hzx hwf.inf h2
                         rw [hr] at h3
                         rcases h3 with h3 | ⟨r', h3, hr'⟩
                         · cases h3
@@ -250,16 +270,19 @@ theorem passLoop_opt (P : Params K) (items : List (Item K)) (lineW : K) (hwf : W
               fun a ha => ⟨Nat.lt_succ_of_lt (hprev a ha).1, (hprev a ha).2⟩,
               (fun he => by cases he), hlast, hcost, n, hsurv, hat, hdom⟩
       obtain ⟨prev', fit', acc', seq', k1, k2, k3, k4, k5, k6, k7, n', hn', hat', hdom'⟩ := key
-      have h2 : drastic tol b lb1 = some lb1 := drastic_id tol b lb1 n' hn'
+      have h2 : drastic P tol b it rest lb1 = some lb1 := drastic_id P tol b it rest lb1 n' hn'
       rw [h2]
       simp only
-      have hI2 := step_inv (fun a => beq_self_eq_true a) P items lineW tol b it rest lb lb1 lb1 hdrop hI h1 h2
+      have h1' : itemStep P items lineW tol b (prevOf items b) it rest (clearStale P (prevOf items b) lb) = some lb1 := by
+        rw [hlb0]; exact h1
+      have hI2 := step_inv (fun a => beq_self_eq_true a) P items lineW tol b it rest lb lb1 lb1 hdrop hI h1' h2
+      obtain ⟨_, g2, _, _, g5⟩ := addGlue_spec it lb1
       have hprevb : prevOf items (b + 1) = some it := hit
       rw [← hprevb]
-      obtain ⟨lbf, hp, hov, hres⟩ := ih (b + 1) lb1 prev' fit' acc' seq' d (drop_succ_of_drop hdrop) hblt hI2
-        k1 k2 k3 k4 k5 k6 k7 ⟨n', hn', hat', hdom'⟩
+      obtain ⟨lbf, hp, hov, hres⟩ := ih (b + 1) (addGlue it lb1) prev' fit' acc' seq' d (drop_succ_of_drop hdrop) hblt hI2
+        k1 k2 k3 k4 k5 k6 k7 ⟨n', by rw [g2]; exact hn', hat', hdom'⟩
       refine ⟨lbf, hp, ?_, hres⟩
-      rw [hov, ho1]
+      rw [hov, g5, ho1, ← hcl.2]
       rcases hm with ⟨_, h⟩ | ⟨_, h⟩
       · rw [h]
       · rw [h]; rfl
